@@ -198,6 +198,7 @@ theorem hs_eq : âˆ€ (t : Ty) (vs : List TVal), hsSumIter t vs = hsDefault t vs â
   | .binaryHeap _ _, vs => by simp [hsSumIter, hsSumExact]
   | .hashSet _ _ _, vs => by simp [hsSumIter, hsSumExact]
   | .hashMap _ _ _ _ _, vs => by simp [hsSumIter, hsSumExact]
+  | .user _, vs => by simp [hsSumIter, hsSumExact]
 
 theorem hs_eq_tup : âˆ€ (ts : List Ty) (i : Nat) (vs : List TVal),
     hsSumIterTup ts i vs = sumOver (compHeap ts i) vs âˆ§ hsSumExactTup ts i vs = sumOver (compHeap ts i) vs
